@@ -1245,6 +1245,13 @@ func c19Aligned(sink io.Writer, v Version, human, info bool, filler int) error {
 func TestB2C19WriteFaultsAligned(t *testing.T) {
 	cases := 0
 	injected := errors.New("injected sink failure")
+	// neighbouring alignments fail alike: at most a dozen lines are printed
+	failures := 0
+	fail := func(format string, args ...any) {
+		if failures++; failures <= 12 {
+			t.Errorf("B2-FAIL "+format, args...)
+		}
+	}
 	step := 8
 	humans := []bool{false}
 	if b2Thorough() {
@@ -1269,7 +1276,7 @@ func TestB2C19WriteFaultsAligned(t *testing.T) {
 					for k := 1; k <= base.calls; k++ {
 						cases++
 						if err := run(&c19Sink{failAt: k, err: injected}); err == nil || !errors.Is(err, injected) {
-							t.Errorf("B2-FAIL sink-error-lost %s k=%d: %v", desc, k, err)
+							fail("sink-error-lost %s k=%d: %v", desc, k, err)
 						}
 					}
 					sbase := &c19SeekSink{}
@@ -1280,15 +1287,18 @@ func TestB2C19WriteFaultsAligned(t *testing.T) {
 					for k := 1; k <= sbase.calls; k++ {
 						cases += 2
 						if err := run(&c19SeekSink{failAt: k, err: injected}); err == nil || !errors.Is(err, injected) {
-							t.Errorf("B2-FAIL sink-error-lost seekable %s k=%d: %v", desc, k, err)
+							fail("sink-error-lost seekable %s k=%d: %v", desc, k, err)
 						}
 						if err := run(&c19OnceSink{c19SeekSink{failAt: k, err: injected}}); err == nil || !errors.Is(err, injected) {
-							t.Errorf("B2-FAIL sink-error-lost seekable-once %s k=%d: %v", desc, k, err)
+							fail("sink-error-lost seekable-once %s k=%d: %v", desc, k, err)
 						}
 					}
 				}
 			}
 		}
+	}
+	if failures > 12 {
+		t.Logf("%d further failures not printed", failures-12)
 	}
 	t.Logf("B2-CASES %d", cases)
 }
@@ -1323,7 +1333,7 @@ func TestB2C20PrefixesNumbers(t *testing.T) {
 			continue
 		}
 		truth := c20Truth(doc.bytes)
-		if len(truth) < 10 {
+		if len(truth) < 5 {
 			t.Errorf("B2-FAIL harness: %s has %d objects", doc.desc, len(truth))
 			continue
 		}
